@@ -50,8 +50,21 @@ def check(ctx, src):
     ctx.check(split is not None, "FS-COMPILE", f"{compq.CP}|compile_fcomponent|value-then-spec", "the first child is the value, the rest the spec", compq.CP, cf.lineno, detail="root, *rest")
     fs = src.py("hy/models.py").func("FString.__new__")
     ctx.require(fs is not None, "FString.__new__ not found")
-    t = flat(fs)
-    ctx.check("groupby(s, lambda x: isinstance(x, String))" in t and "[reduce(operator.add, components)] if is_string else components" in t, "FS-COMPILE", "hy/models.py|FString.__new__|join", "adjacent String components are no longer joined", "hy/models.py", fs.lineno, detail="groupby + reduce(add)")
+    mo_ = src.py("hy/models.py")
+    scope_fns = [fs] + [mo_.func(c.func.id) for c in pyq.calls(fs) if isinstance(c.func, ast.Name) and mo_.func(c.func.id) is not None]
+    grp = [c for f_ in scope_fns for c in pyq.calls(f_) if (dotted(c.func) or "").split(".")[-1] == "groupby" and "isinstance(" in norm(c) and "String" in norm(c)]
+    red = [c for f_ in scope_fns for c in pyq.calls(f_) if ((dotted(c.func) or "").split(".")[-1] == "reduce" and c.args and norm(c.args[0]) == "operator.add") or
+           (isinstance(c.func, ast.Attribute) and c.func.attr == "join" and isinstance(c.func.value, ast.Constant))]
+    ctx.check(bool(grp) and bool(red), "FS-COMPILE", "hy/models.py|FString.__new__|join", "adjacent String components are no longer joined (no grouping by `isinstance(x, String)` followed by a concatenation was found)",
+              "hy/models.py", fs.lineno, witness='(hy.models.FString [(String "a") (String "b")]) keeps two components', detail="groupby + reduce(add)")
+    fcn = mo_.func("FComponent.__new__")
+    ctx.require(fcn is not None, "FComponent.__new__ not found")
+    sup = [c for c in pyq.calls(fcn) if isinstance(c.func, ast.Attribute) and c.func.attr == "__new__" and isinstance(c.func.value, ast.Call) and dotted(c.func.value.func) == "super"]
+    p0 = fcn.args.args[1].arg if len(fcn.args.args) > 1 else None
+    arg = sup[0].args[1] if sup and len(sup[0].args) > 1 else None
+    verdict = None if arg is None or p0 is None else (True if isinstance(arg, ast.Name) and arg.id == p0 else (False if isinstance(arg, ast.Call) and any(isinstance(n, ast.Name) and n.id == p0 for n in ast.walk(arg)) else None))
+    ctx.decide("FS-COMPILE", "hy/models.py|FComponent.__new__|children as given", verdict, f"FComponent must keep its children as given (the first is the value, the rest the format spec); it now stores `{norm(arg) if arg is not None else None}`",
+               "hy/models.py", fcn.lineno, witness='f"{"a":b}": the value "a" and the spec text "b" are merged into one String', detail="super().__new__(cls, s)")
     # --- reader: field
     rf = rq.methods["read_fcomponent"][1]
     b = rf.body
